@@ -49,6 +49,10 @@ def run(repo, rep, tier):
     from . import c03 as _c03
     L.borrow(repo, rep, "R17.3", "C03", _c03._newlines,
              ("newline-rewrite", "newline-guard", "rewrites"), minimum=1)
+    # outside XML mode the boolean attributes of HTML are implicit: the
+    # default table is complete (C07 owns it)
+    from . import c07 as _c07
+    L.borrow(repo, rep, "R17.3", "C07", _c07._defaults, ("html-table",))
     L.state_rule(repo, rep)
 
 
